@@ -68,7 +68,7 @@ def _rt_facts(ctx):
 
 def _rt_trees(ctx):
     return ctx.memo("trees_rt", lambda: ctx.art.source_trees(["eqlog-runtime/src/prefix_tree.rs", "eqlog-runtime/src/unification.rs",
-                                                             "eqlog-runtime/src/wbtree/map.rs"]))
+                                                             "eqlog-runtime/src/wbtree/map.rs", "eqlog-runtime/src/wbtree/set.rs"]))
 
 
 def g_rt_mir(ctx):
@@ -83,7 +83,7 @@ def g_rt_mir(ctx):
 
 def g_rt_syn(ctx):
     t = _rt_trees(ctx)
-    return [rules_rt.rule_uf(t), rules_rt.rule_sib(t), rules_rt.rule_prune(t), rules_rt.rule_nav(t), rules_rt.rule_leaf(t)]
+    return [rules_rt.rule_uf(t), rules_rt.rule_sib(t), rules_rt.rule_prune(t), rules_rt.rule_nav(t), rules_rt.rule_leaf(t), rules_rt.rule_set(t)]
 
 
 def g_prune_use(ctx):
@@ -173,7 +173,7 @@ RULE_GROUP = {
     "M-DIGEST": "cc_digest", "M-PANIC": "cc_diag", "M-LINES": "cc_diag", "M-LOCS": "cc_diag", "M-DET": "cc_det", "M-PAR": "cc_det", "M-DIRTAINT": "cc_det",
     "M-FUNCDOM": "cc_misc", "M-EMIT": "cc_misc", "M-DETRT": "rt_det", "T-X": "x", "T-DET": "x", "T-TYPECHECK": "typecheck",
     "M-MAPFREE": "rt_mir", "M-FREEZE": "rt_mir", "M-UNSAFE": "rt_mir", "M-CBORDER": "rt_mir", "M-LEN": "rt_mir", "M-SIZE": "rt_mir",
-    "M-BAL": "rt_mir", "M-SHARE": "rt_mir", "M-SYM": "rt_mir", "M-KAHN": "rt_mir", "M-UF": "rt_syn", "S-SIB": "rt_syn", "S-PRUNE": "rt_syn", "S-NAV": "rt_syn", "S-LEAF": "rt_syn",
+    "M-BAL": "rt_mir", "M-SHARE": "rt_mir", "M-SYM": "rt_mir", "M-KAHN": "rt_mir", "M-UF": "rt_syn", "S-SIB": "rt_syn", "S-PRUNE": "rt_syn", "S-NAV": "rt_syn", "S-LEAF": "rt_syn", "S-SET": "rt_syn",
     "T-API": "api", "T-ALLOC": "api", "T-ENUM": "api",
 }
 
@@ -196,8 +196,8 @@ PROPERTIES = {
     "C03": {"rules": ["T-SEMI", "T-MOVE", "T-CANON", "T-LOOP", "T-INS", "T-DIAG", "T-AGE", "S-SIB", "S-LEAF", "S-PRUNE"], "level": "translation_validation"},
     "C04": {"rules": ["T-FAM", "T-INS", "T-MOVE", "T-CANON", "T-DIAG", "T-DIRTY", "T-API", "T-ENUM", "T-MOR", "S-SIB", "S-LEAF", "S-NAV"], "level": "translation_validation"},
     "C05": {"rules": ["T-API", "T-INS", "M-UF"], "level": "other"},
-    "C08": {"rules": ["S-SIB", "S-PRUNE", "S-LEAF", "T-PRUNE-USE", "M-FREEZE", "M-UNSAFE", "M-MAPFREE", "M-SHARE", "M-CBORDER"], "level": "other"},
-    "C14": {"rules": ["M-FREEZE", "M-UNSAFE", "M-MAPFREE", "M-SHARE", "M-CBORDER", "M-LEN", "M-SIZE", "M-BAL", "S-NAV"], "level": "other"},
+    "C08": {"rules": ["S-SIB", "S-PRUNE", "S-LEAF", "S-SET", "T-PRUNE-USE", "M-FREEZE", "M-UNSAFE", "M-MAPFREE", "M-SHARE", "M-CBORDER"], "level": "other"},
+    "C14": {"rules": ["M-FREEZE", "M-UNSAFE", "M-MAPFREE", "M-SHARE", "M-CBORDER", "M-LEN", "M-SIZE", "M-BAL", "S-NAV", "S-SET"], "level": "other"},
     "C18": {"rules": ["M-SYM", "M-KAHN", "T-MOR"], "level": "other"},
     "C06": {"rules": ["T-ALLOC", "M-FUNCDOM", "T-DIRTY", "T-MOVE", "T-CANON", "S-PRUNE"], "level": "other"},
     "C09": {"rules": ["T-TYPECHECK", "T-ENV", "T-X", "T-DELTA"], "level": "translation_validation"},
@@ -224,5 +224,5 @@ FLOORS = {
     ("S-SIB", "quick"): 108, ("S-PRUNE", "quick"): 32, ("M-CBORDER", "quick"): 37, ("M-SIZE", "quick"): 13, ("M-BAL", "quick"): 7,
     ("M-DIGEST", "quick"): 23, ("M-FREEZE", "quick"): 29, ("M-EMIT", "quick"): 13, ("M-PAR", "quick"): 8, ("M-MAPFREE", "quick"): 700,
     ("M-UNSAFE", "quick"): 700, ("M-SYM", "quick"): 3, ("M-UF", "quick"): 4, ("M-LEN", "quick"): 4, ("M-DIRTAINT", "quick"): 3,
-    ("M-FUNCDOM", "quick"): 2, ("M-SHARE", "quick"): 14, ("S-NAV", "quick"): 12, ("S-LEAF", "quick"): 11,
+    ("M-FUNCDOM", "quick"): 2, ("M-SHARE", "quick"): 14, ("S-NAV", "quick"): 12, ("S-LEAF", "quick"): 11, ("S-SET", "quick"): 8,
 }
